@@ -1,4 +1,4 @@
-import PyYetiVerif.Model.Freq
+import PyYetiVerif.Model.FreqSolve
 /-! Line protocol for C02.  Floats travel as decimal `UInt64` bit patterns; a complex number is
 two tokens (re im).
 
@@ -12,11 +12,17 @@ case header (shared):
 requests
   `su <header> <frows> <fcols> F(frows·fcols complex)`   SolveUnc.fsolve
   `fd <header> <frows> <fcols> F`                        FreqDirect.fsolve
-  `psd <su|fd> <header> <p> t_frc(n·p complex) forcepsd(p·nf real) <q> <fa fv fd ff> drma(q·n) drmv drmd drmf(q·p)`
-       (a drm whose flag is 0 is absent from the line)
+  `psd <su|fd> <header> <p> t_frc(n·p complex) forcepsd(p·nf real) <q> <fa fv fd ff> drma(q·n) drmv drmd drmf(q·p) rbduf elduf`
+       (a drm whose flag is 0 is absent from the line; rbduf, elduf real floats)
+  `state <su|fd> <header>`                                the constructor bookkeeping of a whole problem
+  `layout <n> <rf> <rb> <mask n·(0|1)> <eigPath 0|1> <mNone 0|1> <uncReal 0|1>`
+       the constructor bookkeeping alone: `mask` is the automatic rigid-body detection result per equation
   `gauss <n> A(n·n) b(n)`                                 the stand-in linear solver
 replies
-  `ok d(n·nf) v a` (complex, row major) | `ok psd(q·nf real) rms(q real)` | `ok x(n)` | `error <kind>` | `bad-op` -/
+  `ok d(n·nf) v a` (complex, row major) | `ok psd(q·nf real) rms(q real)` | `ok x(n)` | `error <kind>` | `bad-op`
+  state: `ok unc | nonrf | rb | el | _rb | _el [| kdof | mRows | state _rb | state _el | imrb | invm | rbMassRows | elRows]`
+  layout: `ok nonrf | rb | el | _rb | _el | kdof | mRows | state _rb | state _el | imrb | invm | rbMassRows | elRows`
+          (index lists separated by `|`, `-` for an absent one) -/
 open PyYetiVerif.Freq
 
 abbrev P := StateT (List String) Option
@@ -98,7 +104,7 @@ def runSolve (which : String) (h : Header) (F : Mat Cx) : String :=
     let c := { h.c with F := F }
     let r := if which == "su" then fsolveSU cxOps cxAbsLt c else fsolveFD cxOps cxAbsLt c
     match r with
-    | .ok s => fmtSol s
+    | .ok (s, _) => fmtSol s
     | .error e => "error " ++ e
 
 def pSolve (which : String) : P String := do
@@ -122,12 +128,16 @@ def pPsd : P String := do
   let rv ← opt fv h.c.n
   let rd ← opt fd h.c.n
   let rff ← opt ff p
+  let rbduf ← pF
+  let elduf ← pF
   match h.inc with
   | none => pure "error value-error"
   | some _ =>
-    let solver : Case Cx → Except String (Sol Cx) :=
+    let solver : Case Cx → Except String (Sol Cx × Layout) :=
       if which == "su" then fsolveSU cxOps cxAbsLt else fsolveFD cxOps cxAbsLt
-    match solvePsdCase Cx.normSq solver h.c h.freqR p tfrc fpsd q ra rv rd rff with
+    let isOne (z : Cx) : Bool := z.re == 1 && z.im == 0
+    match solvePsdCase Cx.normSq isOne solver h.c h.freqR p tfrc fpsd q ra rv rd rff
+        (Cx.ofReal rbduf) (Cx.ofReal elduf) with
     | .ok (psd, rms) =>
       pure (" ".intercalate (["ok"] ++ (psd.toList.map fun r => r.toList.map fmtF).flatten
         ++ rms.toList.map fmtF))
@@ -137,8 +147,59 @@ def pGauss : P String := do
   let n ← pNat
   let A ← pMat n n
   let b ← pRep n pCx
-  let x := gaussSolve cxAbsLt n A b
-  pure (" ".intercalate ("ok" :: x.toList.map fmtCx))
+  let A' : Fin n → Fin n → Cx := fnOfMat A
+  let b' : Fin n → Cx := fnOfVec b
+  match gaussList Cx.isZero cxAbsLt n (eqnsOfFn A' b') with
+  | some x => pure (" ".intercalate ("ok" :: x.map fmtCx))
+  | none => pure "error singular"
+
+def fmtIdx (l : List Nat) : String := " ".intercalate (l.map toString)
+def fmtOIdx : Option (List Nat) → String
+  | some l => fmtIdx l
+  | none => "-"
+
+def pLayout : P String := do
+  let n ← pNat
+  let rf ← pIdx
+  let t ← tok
+  let rb ← if t == "auto" then pure none else do
+    let k ← StateT.lift t.toNat?
+    let v ← pRep k pNat
+    pure (some v.toList)
+  let mask ← pRep n pNat
+  let eigPath ← pNat
+  let mNone ← pNat
+  let uncReal ← pNat
+  match mkLayout n rf.toList rb (fun j => mask[j]! == 1) with
+  | none => pure "error index-error"
+  | some lay =>
+    match suInit lay (eigPath == 1) (mNone == 1) with
+    | none => pure "error index-error"
+    | some st =>
+      pure ("ok " ++ " | ".intercalate [fmtIdx lay.nonrf, fmtIdx lay.rb, fmtIdx lay.el, fmtIdx lay.rb_,
+        fmtIdx lay.el_, fmtIdx st.kdof, fmtIdx st.mRows, fmtIdx st.rb_, fmtIdx st.el_, fmtOIdx st.imrb,
+        fmtOIdx st.invm, fmtOIdx (rbMassRows st (uncReal == 1)), fmtOIdx (elRows st)])
+
+/-- constructor bookkeeping of a whole problem: the model's own rigid-body detection, `mkLayout`, and
+for `su` the state after `SolveUnc.__init__` -/
+def pState (which : String) : P String := do
+  let h ← pHeader
+  let c := h.c
+  let unc := c.unc cxOps
+  match c.layout cxOps with
+  | .error e => pure ("error " ++ e)
+  | .ok lay =>
+    let base := [if unc then "1" else "0", fmtIdx lay.nonrf, fmtIdx lay.rb, fmtIdx lay.el, fmtIdx lay.rb_,
+      fmtIdx lay.el_]
+    if which == "fd" then pure ("ok " ++ " | ".intercalate base)
+    else
+      let uncReal := unc && !c.cplx
+      match suInit lay (!uncReal) c.mNone with
+      | none => pure "error index-error"
+      | some st =>
+        pure ("ok " ++ " | ".intercalate (base ++ [fmtIdx st.kdof, fmtIdx st.mRows, fmtIdx st.rb_,
+          fmtIdx st.el_, fmtOIdx st.imrb, fmtOIdx st.invm, fmtOIdx (rbMassRows st uncReal),
+          fmtOIdx (elRows st)]))
 
 def answer (line : String) : String :=
   let ws := (line.splitOn " ").filter (· ≠ "")
@@ -151,6 +212,9 @@ def answer (line : String) : String :=
   | "fd" :: rest => run (pSolve "fd") rest
   | "psd" :: rest => run pPsd rest
   | "gauss" :: rest => run pGauss rest
+  | "layout" :: rest => run pLayout rest
+  | "state" :: "su" :: rest => run (pState "su") rest
+  | "state" :: "fd" :: rest => run (pState "fd") rest
   | _ => "bad-op"
 
 partial def loop (h : IO.FS.Stream) (out : IO.FS.Stream) : IO Unit := do
